@@ -182,14 +182,13 @@ Roots(fr) ==
         ELSE { N(k, << A, A, L >>) : k \in {"Sum", "Product"} }
              \cup { IfE(Cn, A, A) })
 
-\* the representations a complete tree is driven in: quick keeps the numpy ones to
-\* the small trees (every parent kind x position x constant occurs among them), the
-\* other tiers take all of RepsFor
-RepsIn(e) == IF Tier = "quick"
-             THEN { r \in RepsFor(e) : \/ r = "py"
-                                       \/ (r = "np64" /\ Size(e) <= 6)
-                                       \/ (r = "np32" /\ Size(e) <= 5) }
-             ELSE RepsFor(e)
+\* the representations a complete tree is driven in: the exhaustive tiers keep the
+\* numpy ones to the smaller trees (every parent kind x position x constant occurs
+\* among them), the random deep trees of the simulation take all of RepsFor
+NpBound(r) == CASE Tier = "quick"    -> IF r = "np64" THEN 6 ELSE 5
+                [] Tier = "thorough" -> IF r = "np64" THEN 9 ELSE 7
+                [] OTHER             -> 1000
+RepsIn(e) == { r \in RepsFor(e) : r = "py" \/ Size(e) <= NpBound(r) }
 
 Complete == NHoles(tree) = 0
 Good == Complete /\ CExpressible(tree, frag)
